@@ -29,6 +29,16 @@ Theorem C14_all_pairs_sound : forall ss es d i j,
   ray_at r (vnorm (vsub (nth j es vzero) (nth i ss vzero))) = nth j es vzero.
 Proof. exact all_pairs_sound. Qed.
 
+(* ---- batch_of_rays: ray i from entry i to exit i, a single entry / exit is shared by all rays *)
+Theorem C14_batch_count : forall entries exits, length (batch_rays entries exits) = Nat.max (length entries) (length exits).
+Proof. exact batch_length. Qed.
+Theorem C14_batch_sound : forall entries exits d i, (i < Nat.max (length entries) (length exits))%nat ->
+  pick entries i <> pick exits i ->
+  let r := nth i (batch_rays entries exits) d in
+  ray_origin r = pick entries i /\ vnorm2 (ray_cosines r) = 1 /\
+  ray_at r (vnorm (vsub (pick exits i) (pick entries i))) = pick exits i.
+Proof. exact batch_sound. Qed.
+
 (* ---- luminous-angle rays *)
 Theorem C14_cap_within_limit : forall U ca, 0 <= U <= 1 -> -1 <= ca <= 1 -> ca <= cap_cos 1 U ca <= 1.
 Proof. exact cap_within_limit. Qed.
@@ -73,6 +83,15 @@ Proof. exact circle_in. Qed.
 Theorem C14_circle_rim : forall rad n0 n1 centre tilt i, (1 <= n1)%nat ->
   vnorm2 (vsub (placed tilt centre (circ_local rad n0 n1 i (n1 - 1))) centre) = rad * rad.
 Proof. exact circle_rim. Qed.
+Theorem C14_circle_uniform_in : forall rad n0 n1 centre tilt, 0 <= rad -> Forall (in_disc centre tilt rad) (cu_points rad n0 n1 centre tilt).
+Proof. exact circle_uniform_in. Qed.
+Theorem C14_count_circle_uniform : forall rad n0 n1 centre tilt, length (cu_points rad n0 n1 centre tilt) = list_sum (cu_counts n0 n1).
+Proof. exact count_circle_uniform. Qed.
+Theorem C14_circle_random_in : forall rad us angs centre tilt, 0 <= rad -> Forall (fun u => 0 <= u <= 1) us ->
+  Forall (in_disc centre tilt rad) (cur_points rad us angs centre tilt).
+Proof. exact circle_random_in. Qed.
+Theorem C14_count_circle_random : forall rad us angs centre tilt, length (cur_points rad us angs centre tilt) = (length us * length angs)%nat.
+Proof. exact count_circle_random. Qed.
 Theorem C14_grid_in : forall sx sy n0 n1 centre tilt, 0 <= sx -> 0 <= sy -> (2 <= n0)%nat -> (2 <= n1)%nat ->
   Forall (in_rect centre tilt sx sy) (grid_points sx sy n0 n1 centre tilt).
 Proof. exact grid_in. Qed.
@@ -80,8 +99,9 @@ Theorem C14_grid_extent : forall sx sy n0 n1 i j, (2 <= n0)%nat -> (2 <= n1)%nat
   vx (grid_local sx sy n0 n1 0 j) = - (sx / 2) /\ vx (grid_local sx sy n0 n1 (n0 - 1) j) = sx / 2 /\
   vy (grid_local sx sy n0 n1 i 0) = - (sy / 2) /\ vy (grid_local sx sy n0 n1 i (n1 - 1)) = sy / 2.
 Proof. exact grid_extent. Qed.
-(* a single row or column makes the NumPy step size/(no - 1) undefined (the implementation raises): C14_grid_in is the
-   strongest statement, from 2 points per axis on *)
+(* plain arithmetic (1 - 1 = 0), NOT a statement about the generator: it only records why the model's grid_coord, like the
+   NumPy step size/(no - 1), has no meaning for a single row or column (the implementation raises; the exception itself is
+   outside a model over R).  C14_grid_in is the strongest statement, from 2 points per axis on *)
 Theorem C14_grid_single_refuted : exists n, (1 <= n)%nat /\ INR n - 1 = 0.
 Proof. exact grid_single_refuted. Qed.
 Theorem C14_box_in : forall sx sy sz n0 n1 n2 centre tilt,
